@@ -4,6 +4,7 @@ pub mod c06;
 pub mod c07;
 pub mod c0809;
 pub mod c13;
+pub mod c15;
 pub mod c16;
 pub mod c17;
 pub mod dnssec;
@@ -12,5 +13,5 @@ pub mod upd_model;
 pub mod update;
 
 pub fn all() -> Vec<CheckDef> {
-    vec![c06::def(), c07::def(), c0809::def_c08(), c0809::def_c09(), update::def_c12(), c13::def(), update::def_c14(), c16::def(), c17::def()]
+    vec![c06::def(), c07::def(), c0809::def_c08(), c0809::def_c09(), update::def_c12(), c13::def(), update::def_c14(), c15::def(), c16::def(), c17::def()]
 }
